@@ -31,21 +31,19 @@
      Python's integers (Model/Counters.v znav_of / znav_path / znav_raw with the kind's Z-valued decoder): one more tie, of that
      model to the code, on every stream of this check (nested groups and tables of groups included).
      mode  0  as above (count vectors are natural numbers)
-           1  stream negative-counter: RECFM V only; envs hold SIGNED values.  good = the property with the number of
-              occupied elements max(0, c) (Spec/Layout.v under the clamped vector; a counter read by name must still
-              show the stored signed value).  The model is the walk over Python's integers on every record.
-              known finding 1 (K-negative-counter): trigger = some table's counter holds a negative value in some record
-              (the input alone); pinned = every observed child of the record (start, end, item_count) is what the CLOSED
-              FORM Spec/CountersWf.zfprops gives - a formula that does not go through Gen/LayoutParams.v.
-
-   The runner's file is checked against the Spec writers and the records against Spec/Layout.v (lengths, counters);
-   a mismatch is verdict 9 (harness error).  [good] is always computed from Spec/Layout.v + the records, for every
-   tree the generator sends (the flat family of the theorems and nested shapes alike). *)
+           1  stream negative-counter: RECFM V only; envs hold SIGNED values.  The property (fix of finding K-negative-counter:
+              LocationMaker.walk refuses a negative item count): the records before the first one in which a table's counter
+              is negative are delivered, each laid out by its own counters, and AT that record the row loop raises ValueError
+              (Row() builds the navigator eagerly) - nothing of such a record is ever located; a file without such a record is
+              delivered whole.  A counter read by name shows the stored signed value.  The model is the walk over Python's
+              integers on every record (Model/Counters.v, with the sign test as harness/t1_layout.py found it in the source).
+              No known finding: a tree that accepts a negative counter is a VIOLATION.
+*)
 From Coq Require Import ZArith NArith List Bool Arith.
 Import ListNotations.
 Require Import SR.Base.Sx SR.Base.Res SR.Gen.RecfmParams SR.Spec.Recfm SR.Model.Recfm.
 Require Import SR.Spec.Layout SR.Model.Layout SR.Spec.OdoStream SR.Model.OdoStream SR.Judge.JLayoutCommon.
-Require Import SR.Base.Dec SR.Spec.Encode SR.Model.ZonedCounter SR.Model.Counters SR.Spec.CountersWf.
+Require Import SR.Base.Dec SR.Spec.Encode SR.Model.ZonedCounter SR.Model.Counters.
 Open Scope Z_scope.
 
 (* ---- counter kinds *)
@@ -240,20 +238,6 @@ Fixpoint zrows_agree (js : js) (counters : list sx) (recs : list (list N)) (f : 
       end
   end.
 
-(* ---- pinned behaviour of finding K-negative-counter: the children of the record where the closed form puts them *)
-Definition pinned_path (ze : id -> Z) (po : sx) : bool :=
-  let o := nth_sx 1 po in
-  match path_of (nth_sx 0 po) with
-  | [PName k] =>
-      match zfind_prop (KName k) (zfprops ze (item_kids t) 0) with
-      | Some l => (as_Z (nth_sx 0 o) =? 0) && (as_Z (nth_sx 1 o) =? zstart l) && (as_Z (nth_sx 2 o) =? zend l)
-                  && match l with ZArr _ _ _ _ cnt _ _ => as_Z (nth_sx 4 o) =? cnt | _ => true end
-      | None => true
-      end
-  | _ => true
-  end.
-Definition pinned_row (ze : id -> Z) (row : sx) : bool :=
-  (as_Z (nth_sx 1 row) =? zend (zn_loc (zflat_nav ze t))) && forallb (pinned_path ze) (as_list (nth_sx 3 row)).
 End Judge.
 
 Definition envz_of (s : sx) : id -> Z :=
@@ -293,9 +277,9 @@ Definition judge_signed (c : sx) (kind : Z) (d : nat) : sx :=
   let js := build t in
   let obs_rows := as_list (nth_sx 1 run) in
   let obs_end := nth_sx 2 run in
-  (* property: one row per record, laid out with max(0, c) occupied elements, the iteration ends normally - or, what a
-     repaired walk would do, the first record in which a table's counter is negative is REFUSED with ValueError after the
-     records before it have been delivered *)
+  (* property: the records before the first one in which a table's counter is negative are delivered, each laid out by its
+     own counters; that record is REFUSED with ValueError (and the iteration ends there); without such a record the file is
+     delivered whole and the iteration ends normally *)
   let neg_rec (ez : id -> Z) : bool := existsb (fun cc => ez cc <? 0) (odo_tables t) in
   let clean_prefix := (fix go (l : list (id -> Z)) : nat := match l with [] => O | ez :: r => if neg_rec ez then O else S (go r) end) ezs in
   let rows_good (n : nat) :=
@@ -303,21 +287,18 @@ Definition judge_signed (c : sx) (kind : Z) (d : nat) : sx :=
       (firstn n (combine ezs rs)) obs_rows in
   let good :=
     (as_Z (nth_sx 0 run) =? 0)
-    && ((sx_eqb obs_end (L [A 0]) && (length obs_rows =? length rs)%nat && rows_good (length rs))
-        || ((clean_prefix <? length rs)%nat && sx_eqb obs_end (L [A 1; A 1])
-            && (length obs_rows =? clean_prefix)%nat && rows_good clean_prefix)) in
+    && (length obs_rows =? clean_prefix)%nat && rows_good clean_prefix
+    && sx_eqb obs_end (if (clean_prefix <? length rs)%nat then L [A 1; A 1] else L [A 0]) in
   (* correspondence: the walk over Python's integers on every record the reader delivers *)
   let schema_agrees := sx_eqb schema (L [A 0; sx_of_js js]) in
   let '(recs, f, _) := V_record_iter 0 image in
   let run_agrees := (as_Z (nth_sx 0 run) =? 0) && zrows_agree zdec js counters recs f obs_rows obs_end in
   let agree := schema_agrees && run_agrees in
-  let trigger := existsb (fun ez => existsb (fun cc => ez cc <? 0) (odo_tables t)) ezs in
-  let pinned := (length obs_rows =? length ezs)%nat && forall2b (fun ez row => pinned_row t ez row) ezs obs_rows in
-  (* the exemption covers the finding's own wrong behaviour (pinned) - or nothing at all, once the walk refuses such records *)
-  let known : option Z := if trigger && (good || pinned) then Some 1 else None in
+  let trigger := existsb neg_rec ezs in
+  let known : option Z := None in
   let branch := 60 + kind + (if trigger then 4 else 0) in
   verdict known good agree branch
-    (L [of_bool schema_agrees; of_bool run_agrees; of_bool trigger; of_bool pinned; of_nat (length recs); fin_obs f]).
+    (L [of_bool schema_agrees; of_bool run_agrees; of_bool trigger; of_nat clean_prefix; of_nat (length recs); fin_obs f]).
 
 Definition judge (c : sx) : sx :=
   let ckind := nth_sx 10 c in
